@@ -49,7 +49,10 @@ DEP_ALLOW = {'num_enum': ('num_enum::TryFromPrimitive::try_from_primitive',)}
 COPY_TYPES = ['RawShortMessage', 'StructuredShortMessage', 'ControlChange14BitMessage', 'ParameterNumberMessage',
               'ControlChange14BitMessageScanner', 'ParameterNumberMessageScanner', 'PollingParameterNumberMessageScanner',
               'U4', 'U7', 'U14', 'Channel', 'KeyNumber', 'ControllerNumber', 'TimeCodeQuarterFrame', 'ShortMessageType']
-FLOORS = {'panic_capable_sites_K1': 40, 'call_terminators_K1': 750}
+# anti-vacuity floors. The panic-site floor is anchored, not a raw count (removing a bounds check or an expect() is an
+# improvement, not a missing anchor): each of the six newtype constructors documented to panic must show at least one
+# recognised panic-capable site; the call floor is far below today's 888 for the same reason.
+FLOORS = {'documented_constructors_with_panic_site_K1': 6, 'call_terminators_K1': 500}
 
 
 def documented_panic_fns(F):
@@ -211,13 +214,34 @@ def panic_sites(F):
     return out
 
 
+def _reaches_site(F, fn, with_site, depth=4):
+    """does `fn`, or a crate function it calls (directly, a few levels deep), contain a recognised panic-capable site"""
+    todo, done = [(fn, 0)], set()
+    while todo:
+        k, d = todo.pop()
+        if k in done or k not in F.fns:
+            continue
+        done.add(k)
+        if k in with_site:
+            return True
+        if d < depth:
+            for blk in F.fns[k]['body']['blocks']:
+                t = blk['term']
+                if t['k'] == 'call' and t['f'].get('fn') and t['f']['fn'].get('local'):
+                    todo.append((t['f']['fn']['path'], d + 1))
+    return False
+
+
 def panics(chk, F, tier):
     cfg = F.cfg
     Aud = audit.get(F)
     doc = documented_panic_fns(F)
     sites = panic_sites(F)
     if cfg == 'K1':
-        chk.floor('panic_capable_sites_K1', FLOORS['panic_capable_sites_K1'], len(sites))
+        ctors = set(p + '::new' for p in midi.NEWTYPE_PATH.values())
+        with_site = set(s[0][0] for s in sites)
+        seen = set(c for c in ctors if _reaches_site(F, c, with_site))
+        chk.floor('documented_constructors_with_panic_site_K1', FLOORS['documented_constructors_with_panic_site_K1'], len(seen))
     chk.extra.setdefault('panic_capable_sites', {})[cfg] = len(sites)
     # which scanner element functions exist (their panic sites are discharged on reachable typestates)
     elem_fns = {}
